@@ -2,7 +2,7 @@
    security context's unwrap, what is written back, and which replies are accepted. The guard,
    the trailer offset, the slice shapes and the rejection test are regenerated kernels. *)
 From V Require Import Prelude.Base Prelude.PyInt Prelude.PySlice gen.K_client gen.C_client gen.C_rpc.
-From V Require Import Model.Pdu Model.Request.
+From V Require Import Model.Pdu Model.Request Model.RpcDispatch.
 
 Definition unwrap_fn := bytes -> bytes -> bytes -> bytes -> bool -> res bytes.
 
@@ -36,15 +36,18 @@ Definition unseal (unwrap : unwrap_fn) (auth : bool) (offs : option (Z * Z)) (si
   | None => if k_unwrap_guard auth false (h_auth_len hdr) then Raise TypeError else Ok resp
   end.
 
-(* _process_response for resp_type = Response: the stub handed to the caller. (PDUs of other
-   types are decoded by the code before being refused; here they are refused outright -- the
-   correspondence compares accept/reject and the accepted stub only.) *)
+(* _process_response for resp_type = Response: unseal, PDU.unpack (EVERY registered type is decoded first, RpcDispatch.pdu_unpack with
+   the loop fuel S (length data) that Units_rpc.fuel_for uses), then the class checks in the order of the source (BindNak, Fault,
+   `type(pdu_resp) is not resp_type`), then the rejection of an unsealed reply to a sealed request. *)
 Definition process_response (unwrap : unwrap_fn) (auth : bool) (offs : option (Z * Z)) (sign : bool)
     (hdr : pdu_header) (resp : bytes) : res response :=
   let* clear := unseal unwrap auth offs sign hdr resp in
-  let* (body, h, st) := pdu_split clear in
-  let* _r := registry_lookup (h_packet_type h) in
-  if negb (h_packet_type h =? c_PT_RESPONSE) then Raise ValueError else
-  let* r := response_unpack body h st in
-  if k_reject_unsealed auth (match offs with Some _ => true | None => false end) (h_auth_len hdr) then Raise ValueError
-  else Ok r.
+  let* (p, _ticks) := pdu_unpack (S (length clear)) clear in
+  match p with
+  | PBindNak _ => Raise ValueError
+  | PFault _ => Raise ValueError
+  | PResponse r =>
+    if k_reject_unsealed auth (match offs with Some _ => true | None => false end) (h_auth_len hdr) then Raise ValueError
+    else Ok r
+  | _ => Raise ValueError
+  end.
